@@ -165,6 +165,7 @@ type Explorer struct {
 	samples    []PathResult
 	okSamples  []*OkSample
 	exactTries map[string]int
+	slowTries  map[string]int
 	exactUnknown map[string]int
 	okSeen     int
 	stats      SolverStats
@@ -763,6 +764,9 @@ func (in *Interp) assertProp(c *Term, label string) {
 			v, model, _ = in.check(nc, true)
 		}
 		slowStrong := time.Since(t0) > 3*time.Second
+		if slowStrong && v != Unsat {
+			in.ex.noteSlow(label)
+		}
 		weak := false
 		if ex := in.exact(c); v != Unsat && ex != c && (slowStrong || !in.ex.exactBudget(label)) {
 			// the strong form alone already took seconds: the exact form and the model
@@ -958,5 +962,16 @@ func dumpForks() {
 func (ex *Explorer) enough(label string) bool {
 	ex.mu.Lock()
 	defer ex.mu.Unlock()
-	return ex.cexCount["assert/"+label]+ex.cexCount["unknown/"+label] >= 3
+	// also after six checks of this assertion that each took seconds: more of the same
+	// would cost minutes and the candidates already kept are replayed natively
+	return ex.cexCount["assert/"+label]+ex.cexCount["unknown/"+label] >= 3 || ex.slowTries[label] >= 6
+}
+
+func (ex *Explorer) noteSlow(label string) {
+	ex.mu.Lock()
+	defer ex.mu.Unlock()
+	if ex.slowTries == nil {
+		ex.slowTries = map[string]int{}
+	}
+	ex.slowTries[label]++
 }
